@@ -2,6 +2,7 @@ package main
 
 import (
 	"encoding/hex"
+	"encoding/json"
 	"fmt"
 	"math"
 	"sort"
@@ -191,6 +192,13 @@ func asInt(v interface{}) int {
 		return int(x)
 	case float64:
 		return int(x)
+	case json.Number:
+		n, err := x.Int64()
+		if err != nil {
+			f, _ := x.Float64()
+			return int(f)
+		}
+		return int(n)
 	}
 	panic(fmt.Sprintf("asInt: %T", v))
 }
